@@ -297,6 +297,40 @@ def run_property(prop, tier, seed, update_baseline=False):
                 path = write_replay(prop, "e2e-" + v["key"], {"property": prop, "from": "e2e bounded contract", **v})
                 violations.append((path, True, v["key"]))
 
+    # ---- frame / effect obligations (static effect checker pyvc/effects.py): C14 (purity) and C20 (advisory-only warnings)
+    eff = None
+    EFFECT_KINDS = {"C14": ("E1", "E1x", "E2", "E3", "E3x"), "C20": ("E5",)}
+    if prop in EFFECT_KINDS:
+        from pyvc import effects
+
+        t0 = time.time()
+        er = effects.analyse(REPO)
+        eobs = [o for o in er["obligations"] if o["kind"] in EFFECT_KINDS[prop]]
+        eff = {"functions_analysed": er["functions"], "modules": er["modules"], "kinds": list(EFFECT_KINDS[prop]),
+               "obligations": sum(1 for o in eobs if o["status"] != "justified"),
+               "discharged": sum(1 for o in eobs if o["status"] == "discharged"),
+               "justified_by_annotation": [
+                   {"oid": o["oid"], "reason": o.get("reason"), "sites": [x["stmt"][:160] for x in o.get("sites", [])]}
+                   for o in eobs if o["status"] == "justified"],
+               "wall_s": round(time.time() - t0, 2)}
+        if not eobs:
+            errors.append("effect checker generated zero obligations")
+        for o in eobs:
+            if o["status"] != "failed":
+                continue
+            kf = match_known(known, prop, o["oid"])
+            if kf is not None:
+                known_hits.append((kf, o["oid"]))
+                continue
+            if "@" not in o["oid"].split("#")[-1] and any(
+                    x["oid"].startswith(o["oid"] + "@") and x["status"] == "failed" for x in eobs):
+                continue  # the function-level obligation fails because of a site obligation reported separately
+            path = write_replay(prop, o["oid"], {"property": prop, "obligation": o["oid"], "kind": "frame-" + o["kind"],
+                                                 "function": o["function"], "file": o.get("file"), "sites": o.get("sites"),
+                                                 "verifier_output": "static effect checker: frame obligation not discharged",
+                                                 "witness": None})
+            violations.append((path, False, o["oid"]))
+
     # ---- report
     for st_name in ("out-of-subset", "contract-does-not-apply"):
         for fid, (s, msg) in out["fstatus"].items():
@@ -325,6 +359,10 @@ def run_property(prop, tier, seed, update_baseline=False):
         print(f"BASELINE property={prop} written: {sum(1 for v in bl.values() if v['discharged'])}/{len(bl)} discharged")
 
     n_ob = len(obs) - len(guards_inconclusive)
+    if eff is not None:
+        n_ob += eff["obligations"]
+        discharged += eff["discharged"]
+        by_solver["effects (static frame inference)"] = eff["discharged"]
     level = "proof" if n_ob and discharged == n_ob and not undecided else "other"
     cov = {
         "obligations": n_ob,
@@ -341,6 +379,7 @@ def run_property(prop, tier, seed, update_baseline=False):
         "known_findings_matched": sorted(seen),
         "bounded_native_contract_search": bounded,
         "bounded_e2e": {k: v for k, v in (e2e or {}).items() if k != "violations"},
+        "frame_obligations": eff,
         "samples": samples,
         "explanation": (
             "Deductive part: obligations generated by pyvc from the real function bodies in /repo and the "
@@ -348,6 +387,8 @@ def run_property(prop, tier, seed, update_baseline=False):
             "reported separately and never counted in 'discharged'."),
     }
     assumptions = list(out["trusted"]) + ASSUMPTIONS
+    if eff is not None:
+        assumptions += EFFECT_ASSUMPTIONS + [f"annotation: {j['oid']}: {j['reason']}" for j in eff["justified_by_annotation"]]
     ev = {"property_id": prop, "tier": tier, "seed": seed, "level": level, "coverage": cov,
           "assumptions": assumptions, "wall_s": round(time.time() - t_start, 2),
           "violations": len(violations)}
@@ -369,6 +410,19 @@ ASSUMPTIONS = [
     "z3 5.1 and cvc5 1.0.3 are sound; 'unsat' from either discharges an obligation",
     "extraction drops only comments, docstrings, annotations and identity decorators (pyvc/extract.py)",
     "no aliasing between mutable locals in verified functions (checked syntactically; violation => out-of-subset)",
+]
+
+
+EFFECT_ASSUMPTIONS = [
+    "effect checker A-REFL: no reflective writes (computed setattr/getattr names, exec, __dict__) beyond the modelled ones",
+    "effect checker A-HEAP: heap aliasing followed by attribute name only; a parameter stored in a field and mutated later "
+    "through that field is not connected back to the caller",
+    "effect checker A-CALL: calls resolved by name; opaque callables (third party, partial) assumed not to write package state",
+    "effect checker A-SETTYPE: a value is known to be a set only through literals, constructors, set operators, annotations, "
+    "package return values and call-site arguments",
+    "effect checker A-LRU: identity-keyed lru_cache entries (survey objects) keep the key alive, so a live entry cannot be hit "
+    "by a different survey",
+    "schedules (threads) and PYTHONHASHSEED are only explored by the bounded differential oracle",
 ]
 
 
